@@ -733,7 +733,7 @@ def suggest_event(out, thname, item, state, idx, gid, r, rec_step):
     adv_fact = [tid_of(t) for t in r["_fact"]] if "_fact" in r else None
     ev = {"kind": "suggest", "thm": "%s.%s" % (thname, item.name), "step": idx, "method": mname, "sig": sig, "given": sorted(given),
           "supplied_from": supplied_from, "has_goal": adv_goal is not None, "adv_goal": adv_goal or [], "has_fact": adv_fact is not None,
-          "adv_fact": adv_fact or [], "goal_line": ids(gid)}
+          "adv_fact": adv_fact or [], "goal_line": ids(gid), "fact_ids": [str(f) for f in r.get("fact_ids", [])]}
     if supplied_from == "unsupplied":
         ev.update({"outcome": "notapplied", "query": [], "query_other": [], "new_gaps": [], "after_props": [], "before_props": [], "exc": ""})
     else:
@@ -784,7 +784,7 @@ def suggest_event(out, thname, item, state, idx, gid, r, rec_step):
             ev["exc"] = type(e).__name__ + ": " + str(e)[:120]
             ev.update({"query": [], "query_other": [], "new_gaps": [], "after_props": [], "before_props": []})
     ev["orig_unchanged"] = lines_of(state) == before_lines
-    ev["key"] = "%s#%d:%s:%s:%s" % (ev["thm"], idx, gid, mname, json.dumps(given, sort_keys=True, default=str)[:80])
+    ev["key"] = "%s#%d:%s<-%s:%s:%s" % (ev["thm"], idx, gid, ",".join(ev["fact_ids"]), mname, json.dumps(given, sort_keys=True, default=str)[:80])
     out.emit(ev)
 
 
